@@ -7,7 +7,7 @@ props = [json.loads(l) for l in open(os.path.join(HERE, 'properties.jsonl'))]
 # id -> (technique, level text, level note, design ref)
 CLAIMED = {
  'C01': ("bounded-exhaustive enumeration per factor (400-year cycle days, seconds of day, cycle indices) + proptest mixture, against an independent calendar oracle",
-         "Exploration: every day of the 400-year cycle at boundary and random cycle indices, every second of chosen days, every cycle index (thorough), range boundaries and a proptest mixture are converted through both entry points and compared field by field (incl. weekday, year-day, refusal) with an independent era-based calendar validated against a day-by-day odometer. Complete per factor, sampled across factors; no proof.",
+         "Exploration: every day of the 400-year cycle at boundary and random cycle indices, every second of chosen days, every cycle index (thorough), range boundaries and a proptest mixture are converted through three entry points (from_timespec, the UTC zone, from_total_nanoseconds) and compared field by field (incl. weekday, year-day, refusal) with an independent era-based calendar validated against a day-by-day odometer. Complete per factor, sampled across factors; no proof.",
          "Trusts the O-cal oracle (self-tested at start-up) and the 400-year periodicity of the Gregorian calendar; nanoseconds are treated as pass-through in from_timespec.", "DESIGN.md §5 C01"),
  'C02': ("bounded-exhaustive validity grid and cycle-day enumeration + proptest (valid, single-defect, successor and random pairs) against an independent calendar oracle; round trips; monotonicity metamorphic relation",
          "Exploration: all 65536 (month, day) byte pairs for 10 year classes, all days of the 400-year cycle at fixed and random eras with 4 times each, every day of years i32::MIN/MAX, plus proptest-generated valid tuples, single-field perturbations, and (date, successor) / random pairs. Accept/reject, error class (specific variant for single defects), exact Unix time, both round trips, second 60 semantics, strict monotonicity and Ord agreement are asserted. Complete per factor, sampled across factors.",
@@ -30,8 +30,8 @@ CLAIMED = {
  'C13': ("proptest: valid-by-construction zones + exactly one of 10 defect classes, random multi-defect tuples, leap-spacing enumeration up to i64::MAX, byte-exhaustive designation enumeration; validity-predicate oracle; owned vs borrowed differential",
          "Exploration: generated valid zones must be accepted by both constructors and give back their parts; each single defect must be refused with its specific error; multi-defect tuples must be refused with one of the violated clauses' errors; both constructors always agree. LocalTimeType::new: every byte at every position for lengths 3..7, lengths 0..10, offset i32::MIN.",
          "Validity predicate transcribed from the property; three unspecified corners (rule cannot be evaluated at the last transition) carry no Ok/Err claim.", "DESIGN.md §5 C13"),
- 'C03': ("bounded-exhaustive (table length x query rank x trailer) + proptest over valid zones (incl. zic-aligned and leap-second zones) + big tables, against a linear-scan timeline model; pointer identity of the returned slot",
-         "Exploration: complete for the hand-rolled binary search over all table lengths 0..=256 (thorough 600) x every rank x 3 trailers; random valid zones anywhere in i64 queried at every transition -1/0/+1 on both time scales and extremes; tables up to 2.6e5 entries. The returned reference must be the expected slot (ptr::eq), errors by kind, from_timespec fields = O-cal(instant+offset).",
+ 'C03': ("bounded-exhaustive (table length x query rank x trailer) + proptest over valid zones (incl. zic-aligned and leap-second zones) + big tables, against a linear-scan timeline model (returned type compared by value: offset, flag, designation)",
+         "Exploration: complete for the hand-rolled binary search over all table lengths 0..=256 (thorough 600) x every rank x 3 trailers; random valid zones anywhere in i64 queried at every transition -1/0/+1 on both time scales and extremes; tables up to 2.6e5 entries. The returned type must equal the expected slot's type (which of several equal slots is returned is only counted), errors by kind, from_timespec fields = O-cal(instant+offset).",
          "O-zone/O-leap/O-rule models; leap zones within 2^32 s of the i64 limits and 'overlapping' rules carry no claim.", "DESIGN.md §5 C03"),
  'C05': ("proptest over valid zones of all shapes (incl. dense, leap-second, zic-aligned zones) x model-derived local times; two oracles: timeline model and round trip through the crate's own forward lookup (metamorphic/inverse relation)",
          "Exploration: for each generated zone ~48 local times placed on every event's two clocks +- seconds/hours, New Year, random and second-60 variants; the valid results must equal, in order and with their types, the instants at which the zone's clock shows that time (model), convert back through the forward lookup to the searched fields, be complete and duplicate-free w.r.t. the forward lookup, and be unique() exactly when single.",
